@@ -26,7 +26,9 @@ type CheckDef struct {
 	// Jobs lists the exploration jobs of a tier (scheduler-based checks).
 	Jobs func(tier string) []Job
 	// Direct runs an in-process exhaustive enumeration instead (E4 checks).
-	Direct                        func(tier string, deadline time.Time) *DirectResult
+	Direct func(tier string, deadline time.Time) *DirectResult
+	// BFS lists explicit-state searches over operation sequences (E2).
+	BFS                           func(tier string) []*BFSDef
 	QuickSeconds, ThoroughSeconds int
 }
 
@@ -51,6 +53,9 @@ func verifDir() string {
 // ---------------- worker ----------------
 
 func runJob(j Job) JobResult {
+	if jr, ok := JobRunners[j.Family]; ok {
+		return jr(j)
+	}
 	res := JobResult{Job: j}
 	mk, ok := Families[j.Family]
 	if !ok {
@@ -332,19 +337,41 @@ func CheckMain(args []string) int {
 	var viols []Violation
 	exhaustive := true
 	var engineErrs []string
+	states, transitions, traces := 0, 0, 0
+	var samples []any
 	if def.Direct != nil {
 		r := def.Direct(tier, deadline)
 		if r.EngineErr != "" {
 			engineErrs = append(engineErrs, r.EngineErr)
 		}
-		cov["states"], cov["transitions"], cov["traces_validated_against_impl"] = r.States, r.Transitions, r.Traces
-		cov["samples"] = r.Samples
+		states, transitions, traces = states+r.States, transitions+r.Transitions, traces+r.Traces
+		samples = append(samples, r.Samples...)
 		for k, v := range r.Extra {
 			cov[k] = v
 		}
-		exhaustive = r.Exhaustive
-		viols = r.Violations
-	} else {
+		exhaustive = exhaustive && r.Exhaustive
+		viols = append(viols, r.Violations...)
+	}
+	if def.BFS != nil {
+		var per []any
+		for _, bd := range def.BFS(tier) {
+			bs := RunBFS(bd, deadline)
+			engineErrs = append(engineErrs, bs.EngineErrs...)
+			states, transitions, traces = states+bs.States, transitions+bs.Steps, traces+bs.Transitions
+			exhaustive = exhaustive && bs.Exhaustive
+			viols = append(viols, bs.Violations...)
+			for _, sm := range bs.Samples {
+				if len(samples) < 10 {
+					samples = append(samples, sm)
+				}
+			}
+			per = append(per, map[string]any{"search": bd.Name, "alphabet_size": len(bd.Alphabet), "max_burst": bd.Burst, "transitions_per_state": len(bd.moves()), "depth_bound": bd.Depth, "depth_completed": bs.Depth,
+				"fixed_point": bs.FixedPoint, "distinct_states": bs.States, "operations_applied": bs.Transitions, "new_states_per_depth": bs.PerDepth, "cut_by_deadline": !bs.Exhaustive,
+				"burst_phase": map[string]any{"burst_len": bd.TailBurst, "from_states_up_to_depth": bd.TailDepth, "bursts_applied": bs.TailTransitions, "new_states_seen": bs.TailNewStates}})
+		}
+		cov["searches"] = per
+	}
+	if def.Jobs != nil {
 		jobs := def.Jobs(tier)
 		for i := range jobs {
 			jobs[i].ID = i
@@ -358,6 +385,9 @@ func CheckMain(args []string) int {
 				k := int((r >> 33) % uint64(i+1))
 				jobs[i], jobs[k] = jobs[k], jobs[i]
 			}
+			for i := range jobs {
+				jobs[i].ID = i
+			}
 		}
 		results, err := runJobs(jobs, runtime.NumCPU())
 		if err != "" {
@@ -365,9 +395,7 @@ func CheckMain(args []string) int {
 		}
 		execs, steps, points, maxPre := 0, 0, 0, 0
 		outcomes := map[string]bool{}
-		perScenarioOutcomes := 0
 		boundDone := 1 << 30
-		var samples []any
 		single := 0
 		for _, r := range results {
 			if r.EngineErr != "" {
@@ -389,11 +417,10 @@ func CheckMain(args []string) int {
 			for o := range r.Stats.Outcomes {
 				outcomes[r.Job.Family+fmt.Sprint(r.Job.Params)+o] = true
 			}
-			perScenarioOutcomes += len(r.Stats.Outcomes)
 			if len(r.Stats.Outcomes) <= 1 {
 				single++
 			}
-			if len(samples) < 6 && r.Job.ID%(len(results)/6+1) == 0 {
+			if len(samples) < 8 && r.Job.ID%(len(results)/6+1) == 0 {
 				samples = append(samples, map[string]any{"family": r.Job.Family, "params": r.Job.Params, "bound": r.Job.Bound,
 					"executions": r.Stats.Executions, "default_schedule_choices": r.Sample, "distinct_outcomes": len(r.Stats.Outcomes)})
 			}
@@ -410,17 +437,16 @@ func CheckMain(args []string) int {
 				}
 			}
 		}
-		cov["states"] = execs
-		cov["transitions"] = steps
-		cov["traces_validated_against_impl"] = execs
-		cov["samples"] = samples
+		states, transitions, traces = states+execs, transitions+steps, traces+execs
 		cov["scenarios"] = len(results)
+		cov["executions"] = execs
 		cov["choice_points"] = points
 		cov["preemption_bound_completed"] = boundDone
 		cov["max_preemptions_in_an_execution"] = maxPre
 		cov["distinct_outcomes"] = len(outcomes)
 		cov["scenarios_with_single_outcome"] = single
 	}
+	cov["states"], cov["transitions"], cov["traces_validated_against_impl"], cov["samples"] = states, transitions, traces, samples
 	cov["exhaustive"] = exhaustive
 	cov["rule"] = def.Rule
 
